@@ -19,7 +19,7 @@ func init() {
 	subcmds["c19-write"] = c19WriteChild
 }
 
-func coqStr(s string) string { return Render(S(s))[3:] }
+func c19CoqStr(s string) string { return Render(S(s))[3:] }
 
 // genConfigTable is the translator shared by C19 and C10: it dumps driver.configFields (as the
 // init() of /repo's current source computes it) as Gallina data.
@@ -39,10 +39,10 @@ func genConfigTable(args []string) {
 		}
 		var ch []string
 		for _, c := range f.Choices {
-			ch = append(ch, coqStr(c))
+			ch = append(ch, c19CoqStr(c))
 		}
 		fmt.Fprintf(&sb, "  {| f_name := %s; f_url := %s; f_saved := %v; f_kind := %s; f_choices := [%s]; f_default := %s; f_transient := %v |}",
-			coqStr(f.Name), coqStr(f.URLParam), f.Saved, kind, strings.Join(ch, "; "), coqStr(f.Default), f.Transient)
+			c19CoqStr(f.Name), c19CoqStr(f.URLParam), f.Saved, kind, strings.Join(ch, "; "), c19CoqStr(f.Default), f.Transient)
 	}
 	sb.WriteString("].\n")
 	if len(args) > 0 {
@@ -82,7 +82,7 @@ func valuesTerm(q url.Values) Term {
 
 // pfTable ships the float oracle: for every candidate string the canonical fmt.Sprint of
 // strconv.ParseFloat(s, 64), or nothing when it fails.
-func pfTable(strs map[string]bool) Term {
+func c19PfTable(strs map[string]bool) Term {
 	var ks []string
 	for k := range strs {
 		ks = append(ks, k)
@@ -248,7 +248,7 @@ func runC19(c *Ctx) {
 		q2 := u2.Query()
 		collect(strs, q2)
 		obs := L(valuesTerm(q2), Bool(changed), applyObs(driver.VerifDefaultConfig(), q2))
-		in := L(S("url"), pfTable(strs), cfgTerm(cfg), valuesTerm(q0))
+		in := L(S("url"), c19PfTable(strs), cfgTerm(cfg), valuesTerm(q0))
 		c.Case(gen, in, obs, changed, "op:url")
 	}
 	urlCase("url-default", driver.VerifDefaultConfig(), url.Values{})
@@ -281,7 +281,7 @@ func runC19(c *Ctx) {
 		strs := map[string]bool{}
 		collect(strs, q)
 		collectCfg(strs, cfg)
-		c.Case("apply-random", L(S("apply"), pfTable(strs), cfgTerm(cfg), valuesTerm(q)), applyObs(cfg, q), len(q) > 0, "op:apply")
+		c.Case("apply-random", L(S("apply"), c19PfTable(strs), cfgTerm(cfg), valuesTerm(q)), applyObs(cfg, q), len(q) > 0, "op:apply")
 	}
 	runC19Settings(c, fields)
 }
